@@ -34,3 +34,63 @@ package graph
 //@ assume pure BiGraph.Out
 
 //@ assume pure Graph.Out
+
+// ---------------------------------------------------------------------
+// Subgraphs (C18). The result is read through its concrete type
+// (ptrcast(result, listSubgraph)): node i of the subgraph stands for the
+// underlying node nodes[i].oldNode, its k-th edge for the underlying edge
+// number nodes[i].oldEdges[k] of that node.
+
+// (recursive on purpose: the applications inNodes(.., x) are then terms the
+// solver can use as triggers for facts quantified over x)
+//@ spec inNodes(nodes []int, k int, x int) bool = k > 0 && (nodes[k-1] == x || inNodes(nodes, k-1, x))
+//@ spec inEdges(edges []Edge, k int, n int, j int) bool = k > 0 && ((edges[k-1].Node == n && edges[k-1].Edge == j) || inEdges(edges, k-1, n, j))
+
+// Nodes of the subgraph: exactly the underlying nodes below `upto` that are
+// not removed, in increasing order, with empty adjacency so far from `from` on.
+//@ spec keptNodes(g Graph, nodes []int, NN []listSubgraphNode, upto int) bool =
+//@     (forall i in 0..len(NN) :: 0 <= NN[i].oldNode && NN[i].oldNode < upto && !inNodes(nodes, len(nodes), NN[i].oldNode)) &&
+//@     (forall i in 0..len(NN), k in 0..len(NN) :: i < k ==> NN[i].oldNode < NN[k].oldNode)
+//@ spec allNodes(g Graph, nodes []int, NN []listSubgraphNode, upto int) bool =
+//@     forall x in 0..upto :: !inNodes(nodes, len(nodes), x) ==> (exists i in 0..len(NN) :: NN[i].oldNode == x)
+
+// An underlying edge (n, j) survives when it is not listed and its target is
+// not removed. nodeEdges: the adjacency of subgraph node i is exactly the
+// surviving edges j < J of its underlying node, in order, with targets
+// renumbered.
+//@ spec kept(g Graph, nodes []int, edges []Edge, n int, j int) bool =
+//@     !inEdges(edges, len(edges), n, j) && !inNodes(nodes, len(nodes), g.Out(n)[j])
+// cntKept: how many of the underlying edges j < J of node n survive. Together
+// with 'every listed edge survives' and 'listed in strictly increasing order'
+// the equality len == cntKept says that every surviving edge is listed.
+// (outs is g.Out(n): a recursive spec function cannot read the heap itself)
+//@ spec cntKept(nodes []int, edges []Edge, outs []int, n int, J int) int = J <= 0 ? 0 : cntKept(nodes, edges, outs, n, J-1) + ((!inEdges(edges, len(edges), n, J-1) && !inNodes(nodes, len(nodes), outs[J-1])) ? 1 : 0)
+//@ spec nodeEdges(g Graph, nodes []int, edges []Edge, NN []listSubgraphNode, i int, J int) bool =
+//@     len(NN[i].out) == len(NN[i].oldEdges) &&
+//@     (forall e in 0..len(NN[i].out) @[NN[i].oldEdges[e]] :: 0 <= NN[i].oldEdges[e] && NN[i].oldEdges[e] < J) &&
+//@     (forall e in 0..len(NN[i].out) @[NN[i].out[e]] :: kept(g, nodes, edges, NN[i].oldNode, NN[i].oldEdges[e]) && 0 <= NN[i].out[e] && NN[i].out[e] < len(NN) && NN[NN[i].out[e]].oldNode == g.Out(NN[i].oldNode)[NN[i].oldEdges[e]]) &&
+//@     (forall e in 1..len(NN[i].oldEdges) @[NN[i].oldEdges[e]] :: NN[i].oldEdges[e-1] < NN[i].oldEdges[e]) &&
+//@     len(NN[i].oldEdges) == cntKept(nodes, edges, g.Out(NN[i].oldNode), NN[i].oldNode, J)
+//@ spec listsSep(NN []listSubgraphNode) bool =
+//@     (forall i in 0..len(NN) :: (isnil(NN[i].out) || fresh(NN[i].out)) && (isnil(NN[i].oldEdges) || fresh(NN[i].oldEdges))) &&
+//@     (forall i in 0..len(NN), k in 0..len(NN) :: (!isnil(NN[i].out) ==> region(NN[i].out) != region(NN[k].oldEdges)) && (i != k && !isnil(NN[i].out) ==> region(NN[i].out) != region(NN[k].out)) && (i != k && !isnil(NN[i].oldEdges) ==> region(NN[i].oldEdges) != region(NN[k].oldEdges)))
+//@ spec wfOut(g Graph) bool = forall x in 0..g.NumNodes(), k in 0..len(g.Out(x)) :: 0 <= g.Out(x)[k] && g.Out(x)[k] < g.NumNodes()
+
+//@ func SubgraphRemove
+//@   model int
+//@   requires g.NumNodes() >= 0 && wfOut(g) && (forall q in 0..len(nodes) :: 0 <= nodes[q] && nodes[q] < g.NumNodes())
+//@   ensures [underlying] ptrcast(result, listSubgraph).underlying == g
+//@   ensures [nodes]      keptNodes(g, nodes, ptrcast(result, listSubgraph).nodes, g.NumNodes())
+//@   ensures [all-nodes]  allNodes(g, nodes, ptrcast(result, listSubgraph).nodes, g.NumNodes())
+//@   ensures [edges]      forall i in 0..len(ptrcast(result, listSubgraph).nodes) :: nodeEdges(g, nodes, edges, ptrcast(result, listSubgraph).nodes, i, len(g.Out(ptrcast(result, listSubgraph).nodes[i].oldNode)))
+//@   loop 1 (node) invariant forall x int :: haskey(rmNodes, x) <==> inNodes(nodes, _k, x)
+//@   loop 2 (edge) invariant (forall x int :: haskey(rmNodes, x) <==> inNodes(nodes, len(nodes), x)) && (forall n int, j int :: haskey(rmEdges, Edge{n, j}) <==> inEdges(edges, _k, n, j))
+//@   assert @loop2:exit [assumed pigeonhole] len(rmNodes) <= g.NumNodes()
+//@   loop 3 (oldNode) invariant 0 <= oldNode && oldNode <= g.NumNodes() && (forall x int :: haskey(rmNodes, x) <==> inNodes(nodes, len(nodes), x)) && (forall n int, j int :: haskey(rmEdges, Edge{n, j}) <==> inEdges(edges, len(edges), n, j)) && fresh(newNodes) && keptNodes(g, nodes, newNodes, oldNode) && (forall i in 0..len(newNodes) :: isnil(newNodes[i].out) && isnil(newNodes[i].oldEdges)) && (forall x int :: haskey(oldToNew, x) <==> (0 <= x && x < oldNode && !inNodes(nodes, len(nodes), x))) && (forall x int :: haskey(oldToNew, x) ==> 0 <= oldToNew[x] && oldToNew[x] < len(newNodes) && newNodes[oldToNew[x]].oldNode == x)
+//@   loop 4 (i) forget
+//@   loop 4 (i) modifies newNodes[*]
+//@   loop 4 (i) invariant fresh(newNodes) && keptNodes(g, nodes, newNodes, g.NumNodes()) && (forall x int :: haskey(rmNodes, x) <==> inNodes(nodes, len(nodes), x)) && (forall n int, j int :: haskey(rmEdges, Edge{n, j}) <==> inEdges(edges, len(edges), n, j)) && (forall x int :: haskey(oldToNew, x) <==> (0 <= x && x < g.NumNodes() && !inNodes(nodes, len(nodes), x))) && (forall x int :: haskey(oldToNew, x) ==> 0 <= oldToNew[x] && oldToNew[x] < len(newNodes) && newNodes[oldToNew[x]].oldNode == x) && listsSep(newNodes) && (forall a in 0..i :: nodeEdges(g, nodes, edges, newNodes, a, len(g.Out(newNodes[a].oldNode)))) && (forall a in i..len(newNodes) :: isnil(newNodes[a].out) && isnil(newNodes[a].oldEdges))
+//@   loop 5 (j) forget
+//@   loop 5 (j) modifies newNodes[*]
+//@   loop 5 (j) invariant fresh(newNodes) && keptNodes(g, nodes, newNodes, g.NumNodes()) && (forall x int :: haskey(rmNodes, x) <==> inNodes(nodes, len(nodes), x)) && (forall n int, j int :: haskey(rmEdges, Edge{n, j}) <==> inEdges(edges, len(edges), n, j)) && (forall x int :: haskey(oldToNew, x) <==> (0 <= x && x < g.NumNodes() && !inNodes(nodes, len(nodes), x))) && (forall x int :: haskey(oldToNew, x) ==> 0 <= oldToNew[x] && oldToNew[x] < len(newNodes) && newNodes[oldToNew[x]].oldNode == x) && listsSep(newNodes) && 0 <= i && i < len(newNodes) && newNodes[i].oldNode == oldNode && (forall a in 0..i :: nodeEdges(g, nodes, edges, newNodes, a, len(g.Out(newNodes[a].oldNode)))) && nodeEdges(g, nodes, edges, newNodes, i, j) && (forall a in i+1..len(newNodes) :: isnil(newNodes[a].out) && isnil(newNodes[a].oldEdges))
+//@   assigns nothing
